@@ -107,3 +107,29 @@ package server
 
 // The HTTP resource path: optional instance prefix, ac/ or cas/, 64 hex digits (pinned on the SSA).
 //@ conststr[C15] init:MustCompile#0 = "^/?(.*/)?(ac/|cas/)([a-f0-9]{64})$"
+
+// /status (C03): the page is built from one Stats() call and reports its four values in the fields
+// named for them (the disk layer proves that Stats() is exact).
+//@ iface (github.com/buchgr/bazel-remote/v2/cache/disk.Cache).Stats(c)
+//@   pure
+//@ iface (github.com/buchgr/bazel-remote/v2/cache/disk.Cache).MaxSize(c)
+//@   pure
+//@ extern runtime.NumGoroutine()
+//@   pure
+//@ extern encoding/json.NewEncoder(w)
+//@   pure
+//@   ensures result != nil
+//@ extern (*encoding/json.Encoder).SetIndent(e, prefix, indent)
+//@   pure
+//@ extern (*encoding/json.Encoder).Encode(e, v)
+//@   pure
+//@ extern time.Now()
+//@   pure
+//@ extern (time.Time).Unix(t)
+//@   pure
+//@ func (h *httpCache) StatusPageHandler(w http.ResponseWriter, r *http.Request)
+//@   serves C03 C14
+//@   requires h != nil && h.cache != nil && h.errorLogger != nil && w != nil
+//@   requires serverrequest: r != nil && r.Body != nil
+//@   noframe
+//@   call Encode#* asserts[C03] exact: istype(arg1, "statusPageData") && as(arg1, "statusPageData").CurrSize == totalSize && as(arg1, "statusPageData").ReservedSize == reservedSize && as(arg1, "statusPageData").NumFiles == numItems && as(arg1, "statusPageData").UncompressedSize == uncompressedSize
